@@ -1,0 +1,61 @@
+//go:build verif
+
+// Contracts for govc (contract-based deductive verification, /verif). Comment-only file:
+// it is compiled only under the build tag "verif" and contains no code.
+
+package bfe_fcgi
+
+//@ func (*header).init
+//@   props C55
+//@   arith bv
+//@   nopanic
+//@   requires h != nil
+//@   requires 0 <= contentLength && contentLength <= 65535
+//@   modifies h.Version, h.Type, h.Id, h.ContentLength, h.PaddingLength
+//@   ensures[fields] h.Version == 1 && h.Type == recType && h.Id == reqId && int(h.ContentLength) == contentLength
+//@   ensures[padding_to_multiple_of_8] h.PaddingLength < 8 && (contentLength + int(h.PaddingLength)) % 8 == 0
+
+//@ func encodeSize
+//@   props C55
+//@   arith bv
+//@   nopanic
+//@   requires len(b) >= 1 && (size > 127 ==> len(b) >= 4)
+//@   requires size < 2147483648
+//@   modifies b[0:4]
+//@   ensures[short_form] size <= 127 ==> result0 == 1 && b[0] == byte(size)
+//@   ensures[short_form_frame] size <= 127 ==> (forall k int :: 1 <= k && k < len(b) ==> b[k] == old(b[k]))
+//@   ensures[long_form] size > 127 ==> result0 == 4 && b[0] == byte(size/16777216) + 128 && b[1] == byte((size/65536)%256) && b[2] == byte((size/256)%256) && b[3] == byte(size%256)
+
+//@ func readSize
+//@   props C55
+//@   arith bv
+//@   nopanic
+//@   modifies nothing
+//@   ensures[empty] len(s) == 0 ==> result0 == 0 && result1 == 0
+//@   ensures[short_form] len(s) >= 1 && s[0] < 128 ==> result0 == uint32(s[0]) && result1 == 1
+//@   ensures[long_form] len(s) >= 4 && s[0] >= 128 ==> result1 == 4 && result0 == uint32(s[0]-128)*16777216 + uint32(s[1])*65536 + uint32(s[2])*256 + uint32(s[3])
+//@   ensures[truncated] len(s) >= 1 && len(s) < 4 && s[0] >= 128 ==> result0 == 0 && result1 == 0
+
+//@ lemma size_roundtrip
+//@   props C55
+//@   arith bv
+//@   params b []byte, size uint32
+//@   hyp len(b) >= 4 && size < 2147483648
+//@   call n := encodeSize(b, size)
+//@   call r := readSize(b)
+//@   concl[decode_of_encode_is_identity] r0 == size && r1 == n
+
+//@ func (*FCGIClient).writePairs
+//@   props C55
+//@   nopanic
+//@   requires client != nil
+
+//@ func newWriter
+//@   props C55
+//@   nopanic
+//@   modifies nothing
+//@   ensures result0 != nil && result0.Writer != nil && result0.closer != nil
+
+//@ type bufWriter
+//@   props C55
+//@   immutable Writer, closer
